@@ -15,9 +15,16 @@ def groupSteps (prog : Program) (pipe g : String) : List StepDef :=
   | .ok ss => ss
   | .error _ => []
 
+/-- `assert step_group_name`: the empty string is no group name - `run_step_group('')` raises
+    AssertionError before anything is looked up, whatever stands under `''` in the pipeline. -/
+theorem runStepGroup_empty_name (fuel : Nat) (prog : Program) (pipe : String) (raiseStop : Bool) (s : St) :
+    runStepGroup (fuel + 1) prog pipe "" raiseStop s = raiseNew s "AssertionError" "" := by
+  unfold runStepGroup
+  rfl
+
 /-- `run_step_group` on a group whose body has a length (every sequence, null, absent, string, mapping). -/
 theorem runStepGroup_eq' (fuel : Nat) (prog : Program) (pipe g : String) (raiseStop : Bool) (s : St)
-    (ss : List StepDef) (hs : getPipelineSteps prog pipe g = .ok ss) :
+    (ss : List StepDef) (hs : getPipelineSteps prog pipe g = .ok ss) (hg0 : g ≠ "") :
     runStepGroup (fuel + 1) prog pipe g raiseStop s =
       (match runSteps fuel prog pipe ss s with
        | (s1, .jump c) => runGroups fuel prog pipe c.groups c.success c.failure s1
@@ -25,20 +32,23 @@ theorem runStepGroup_eq' (fuel : Nat) (prog : Program) (pipe g : String) (raiseS
        | other => other) := by
   unfold runStepGroup
   rw [hs]
+  simp only [beq_iff_eq, hg0, if_false]
   rfl
 
 /-- `run_step_group` on a group whose body has no `len()` (`on_failure: 42`): `get_pipeline_steps`
     raises before any step runs - the group's own error, raised where the group is run from. -/
 theorem runStepGroup_unsized (fuel : Nat) (prog : Program) (pipe g : String) (raiseStop : Bool) (s : St)
-    (n m : String) (hs : getPipelineSteps prog pipe g = .error (n, m)) :
+    (n m : String) (hs : getPipelineSteps prog pipe g = .error (n, m)) (hg0 : g ≠ "") :
     runStepGroup (fuel + 1) prog pipe g raiseStop s = raiseNew s n m := by
   unfold runStepGroup
   rw [hs]
+  simp only [beq_iff_eq, hg0, if_false]
 
-/-- both cases at once, over `groupSteps`. -/
+/-- all cases at once, over `groupSteps`. -/
 theorem runStepGroup_eq (fuel : Nat) (prog : Program) (pipe g : String) (raiseStop : Bool) (s : St) :
     runStepGroup (fuel + 1) prog pipe g raiseStop s =
-      (match getPipelineSteps prog pipe g with
+      (if g == "" then raiseNew s "AssertionError" "" else
+       match getPipelineSteps prog pipe g with
        | .error (n, m) => raiseNew s n m
        | .ok _ =>
          match runSteps fuel prog pipe (groupSteps prog pipe g) s with
@@ -82,13 +92,14 @@ theorem getPipelineSteps_ok_of_run (fuel : Nat) (prog : Program) (pipe g : Strin
 
 /-- `run_step_group` when the steps the group denotes end in something other than `ok`. -/
 theorem runStepGroup_of_run (fuel : Nat) (prog : Program) (pipe g : String) (raiseStop : Bool) (s s1 : St) (r : Res)
-    (h : runSteps fuel prog pipe (groupSteps prog pipe g) s = (s1, r)) (hok : r ≠ .ok) (hf : r ≠ .outOfFuel) :
+    (h : runSteps fuel prog pipe (groupSteps prog pipe g) s = (s1, r)) (hok : r ≠ .ok) (hf : r ≠ .outOfFuel)
+    (hg0 : g ≠ "") :
     runStepGroup (fuel + 1) prog pipe g raiseStop s =
       (match (s1, r) with
        | (s1, .jump c) => runGroups fuel prog pipe c.groups c.success c.failure s1
        | (s1, .stopGroup) => if raiseStop then (s1, .stopGroup) else (s1, .ok)
        | other => other) := by
-  rw [runStepGroup_eq' fuel prog pipe g raiseStop s _ (getPipelineSteps_ok_of_run fuel prog pipe g s s1 r h hok hf), h]
+  rw [runStepGroup_eq' fuel prog pipe g raiseStop s _ (getPipelineSteps_ok_of_run fuel prog pipe g s s1 r h hok hf) hg0, h]
 
 /-- the "main phase" of `run_step_groups`: the requested groups in order, then the success group. -/
 def mainPhase (fuel : Nat) (prog : Program) (pipe : String) (groups : List String) (success : Option String) : Body :=
@@ -161,9 +172,10 @@ end Pypyr.Flow
 namespace Pypyr.Flow
 
 /-- `_run_pipeline` once the definition is loaded: prepare the context (parser), run the groups,
-    a `StopPipeline` ends this pipeline quietly, and the stack entry is popped whatever happened. -/
+    a `StopPipeline` ends this pipeline quietly, and the stack entry is popped whatever happened.
+    (`groupsBad = false`: `groups` is a list of names or absent; see `runPipeline_groupsBad`.) -/
 theorem runPipeline_eq (fuel : Nat) (prog : Program) (pi : PipeInst) (pd : PipeDef) (s : St)
-    (hp : prog.find? pi.name = some pd) :
+    (hp : prog.find? pi.name = some pd) (hgb : pi.groupsBad = false) :
     runPipeline (fuel + 1) prog pi s =
       (let s0 := { s with stack := pi.name :: s.stack }
        let inner : St × Res :=
@@ -182,7 +194,41 @@ theorem runPipeline_eq (fuel : Nat) (prog : Program) (pi : PipeInst) (pd : PipeD
          | other => other
        ({ inner.1 with stack := inner.1.stack.drop 1 }, inner.2)) := by
   conv => lhs; unfold runPipeline
-  simp only [hp]
+  simp only [hp, hgb, Bool.false_eq_true, if_false]
+  rfl
+
+/-- `groups` given as a truthy value that cannot be iterated (`groups: 5`): the `for step_group in groups`
+    of `run_step_groups` raises TypeError inside its `try` - no group runs; the failure group, if one was
+    given (nothing is defaulted: `groups` is truthy), runs once and decides as for any other error. -/
+theorem runPipeline_groupsBad (fuel : Nat) (prog : Program) (pi : PipeInst) (pd : PipeDef) (s : St)
+    (hp : prog.find? pi.name = some pd) (hgb : pi.groupsBad = true) :
+    runPipeline (fuel + 1) prog pi s =
+      (let s0 := { s with stack := pi.name :: s.stack }
+       let inner : St × Res :=
+         match prepareContext pd pi s0 with
+         | (s1, .err e h) =>
+           match runFailureGroup fuel prog pi.name pi.failure s1 with
+           | (s2, .stopGroup) => (s2, .err e h)
+           | (s2, .stopPipeline) => (s2, .ok)
+           | (s2, .ok) => (s2, .err e h)
+           | other => other
+         | (s1, .ok) =>
+           let e : ExcV := ⟨s1.nextExc, "TypeError", "~object is not iterable"⟩
+           let s1' := (raiseNew s1 "TypeError" "~object is not iterable").1
+           let ran : St × Res :=
+             if hasFailureGroup pi.failure then
+               match runFailureGroup fuel prog pi.name pi.failure s1' with
+               | (s2, .stopGroup) => (s2, .ok)
+               | (s2, .ok) => (s2, .err e false)
+               | other => other
+             else (s1', .err e false)
+           match ran with
+           | (s2, .stopPipeline) => (s2, .ok)
+           | other => other
+         | other => other
+       ({ inner.1 with stack := inner.1.stack.drop 1 }, inner.2)) := by
+  conv => lhs; unfold runPipeline
+  simp only [hp, hgb, if_true, effectiveGroups, raiseNew, hasFailureGroup]
   rfl
 
 theorem runPipeline_notFound (fuel : Nat) (prog : Program) (pi : PipeInst) (s : St)
